@@ -8,6 +8,7 @@ package main
 
 import (
 	"bufio"
+	"bytes"
 	"encoding/hex"
 	"encoding/json"
 	"flag"
@@ -796,6 +797,9 @@ func main() {
 	det = bufio.NewWriter(fd)
 	fx, _ := os.Create(*out + "/app.xi")
 	xi = bufio.NewWriter(fx)
+	fq, _ := os.Create(*out + "/app.qry")
+	qry = bufio.NewWriter(fq)
+	defer func() { qry.Flush(); fq.Close() }()
 	defer func() { wo.Flush(); wi.Flush(); det.Flush(); xi.Flush(); fo.Close(); fi.Close(); fd.Close(); fx.Close() }()
 	for i := 0; i < *n; i++ {
 		runHistory(r, i, *blocks, wo, wi)
@@ -1374,7 +1378,7 @@ func runHistory(r *rng.R, id, maxBlocks int, wo, wi *bufio.Writer) {
 	}
 }
 
-var det, xi *bufio.Writer
+var det, xi, qry *bufio.Writer
 
 func tryMsg(f func()) (msg string) {
 	defer func() {
@@ -1634,6 +1638,22 @@ func (h *hist) replay(variant string, cp *abci.ConsensusParams, ref []string) (s
 			app = simapp.New(db, ix.Addr(), h.gen)
 			if app.LastBlockHeight() == 0 {
 				return fmt.Sprintf("DIVERGED op=%d kind=restart reopened at height 0", i), got_all
+			}
+			// C14 through BaseApp: right after the restart a store query that names no height is a query at the last
+			// committed height - same value, same height, same proof verdict as the query that names it
+			if qry != nil && cp == nil {
+				lh := app.LastBlockHeight()
+				for _, key := range [][]byte{{0x01}, {0x32}, posTypes.KeyForValByAllVals(h.keys[0].addr)} {
+					for _, prove := range []bool{false, true} {
+						q0 := app.Query(abci.RequestQuery{Path: "/store/pos/key", Data: key, Prove: prove})
+						q1 := app.Query(abci.RequestQuery{Path: "/store/pos/key", Data: key, Height: lh, Prove: prove})
+						verdict := "same"
+						if q0.Code != q1.Code || !bytes.Equal(q0.Value, q1.Value) || q0.Height != q1.Height || (q0.Proof == nil) != (q1.Proof == nil) {
+							verdict = fmt.Sprintf("DIFF code=%d/%d height=%d/%d value=%s/%s", q0.Code, q1.Code, q0.Height, q1.Height, hx(q0.Value), hx(q1.Value))
+						}
+						fmt.Fprintf(qry, "%d restart-default-height last=%d key=%s prove=%v %s\n", h.id, lh, hx(key), prove, verdict)
+					}
+				}
 			}
 		}
 	}
